@@ -351,13 +351,15 @@ impl Term {
                     let char_iter = iter.base_iter.heap.char_iter(pstr_loc);
 
                     match tail {
-                        Term::Atom(atom) => {
-                            if atom == "[]" {
-                                term_stack.push(Term::String(atom.as_str().to_string()));
-                            }
-                        },
                         Term::List(l) if l.is_empty() => {
                             term_stack.push(Term::String(char_iter.collect()));
+                        }
+                        Term::String(rest) => {
+                            // the tail is a string (or list of characters) itself: the whole
+                            // term is one string, whatever its segmentation in the heap
+                            let mut string: String = char_iter.collect();
+                            string.push_str(&rest);
+                            term_stack.push(Term::String(string));
                         }
                         Term::List(l) => {
                             let mut list: Vec<Term> = char_iter
